@@ -3,11 +3,13 @@
    N, Z, Q stay extracted inductives.  No Extract Constant. *)
 Require Extraction.
 Require Import ExtrOcamlBasic.
-From KV Require Import Model.Triu Model.Greedy Model.Kaisa Model.Trace Model.Sched Model.Register Model.Neox Model.Bucket Model.Coll.
+From KV Require Import Model.Triu Model.Greedy Model.Kaisa Model.Trace Model.Sched Model.Register Model.Neox Model.Bucket Model.Coll Model.Mat Model.Precond.
 Extraction "model.ml" triu_idx fill_index_matrix sym_comm_outcome
   greedy greedy_ok_b greedy_prop_b kaisa_view
   Trace.run Sched.srun Sched.ctor_ok Sched.exp_decay_q
   Register.register Register.named_modules Register.hooks Register.table_fun
   Neox.neox_view Neox.neox_greedy Neox.neox_ok_b Neox.newgroup_trace_old
   Bucket.brun Bucket.offsets
-  Coll.proj_ok_b Coll.global_order.
+  Coll.proj_ok_b Coll.global_order
+  Mat.mmul Mat.mT Mat.to_list Mat.of_list Mat.inner Precond.pre_inverse Precond.pre_eigen Precond.pre_eigen_prediv
+  Precond.dgda_of Precond.clamp Precond.psd_part Precond.damped Precond.final_grad Precond.get_grad.
